@@ -102,7 +102,7 @@ func TestVF_C32(t *testing.T) {
 		"(B) BlocksCleaner.DeleteMarkedBlocks behind a real MetaFetcher+IgnoreDeletionMarkFilter on 1..6 blocks with/without deletion marks whose DeletionTime is now-delay+k seconds (k in +-{0,1,2,3600}, future marks), delete delay {0,1s,30m,2h,48h}; any object removed => the block had a mark and t1-DeletionTime > delay; " +
 		"(C) BestEffortCleanAbortedPartialUploads on 1..6 partial/complete blocks whose objects get served LastModified = now-threshold+offset (or no LastModified at all -> ULID time), with/without deletion marks, arguments taken from the real fetcher/filter or passed directly; removed => block was partial, not in the given deletion-mark set, t1-last touch > PartialUploadThresholdAge; " +
 		"distinct = hash of (driver, configuration, offset, ms fraction); non-trivial = finite retention / marked block / partial block")
-	n := r.N(700, 35000)
+	n := r.N(700, 80000)
 	r.Require(int64(3*n), n)
 	r.Assume("wall clock does not step between t0 and t1 (checked against the monotonic clock; a stepped case is skipped and counted)")
 	r.Assume("a deletion mark's age is measured from the DeletionTime recorded in the mark (whole seconds)")
